@@ -63,8 +63,12 @@ def xproc_strategy(draw):
             tasks.append(draw(st.lists(st.fixed_dictionaries({
                 "term": st.integers(0, 1),
                 "msgs": st.integers(1, 3),
+                # the transfer fails (raises) inside the lock after its mails
+                "fail": st.sampled_from([False, False, False, True]),
             }), min_size=1, max_size=4)))
-        parts.append({"tasks": tasks})
+        # the lock objects reached this process pickled (as a Terminal handed
+        # to a spawned process does)
+        parts.append({"tasks": tasks, "pickled": draw(st.booleans())})
     chunks = draw(st.lists(
         st.tuples(st.integers(0, n - 1),
                   st.sampled_from([1, 1, 2, 3, 5, 8, 13])),
@@ -143,6 +147,10 @@ class WatchingServer(simsdo.SdoServer):
         return super().sdo(b)
 
 
+class TransferFailed(Exception):
+    pass
+
+
 def run_xproc(case):
     """participants = processes sharing /run/ebpf/<if> through LockFile and
     ParallelMailboxLock, every os / fcntl operation a scheduling point"""
@@ -173,6 +181,24 @@ def run_xproc(case):
                         # one lock object per terminal and process, like the
                         # Terminal object holds it
                         locks[no] = lockmod.ParallelMailboxLock(lf, no)
+                        if script.get("pickled"):
+                            import pickle
+                            try:
+                                locks[no] = pickle.loads(
+                                    pickle.dumps(locks[no]))
+                            except Exception as e:
+                                errors[pid] = (f"unpickling the lock of "
+                                               f"terminal {no}: "
+                                               f"{type(e).__name__}: {e}")
+                                return
+                            if (locks[no].no, locks[no].lock_file.filename) \
+                                    != (no - 1000, lf.filename):
+                                errors[pid] = (
+                                    f"the unpickled lock of terminal {no} "
+                                    f"uses byte {locks[no].no} of "
+                                    f"{locks[no].lock_file.filename}")
+                                return
+                            locks[no].lock_file = lf
                     lock = locks[no]
                     try:
                         async with lock:
@@ -185,6 +211,10 @@ def run_xproc(case):
                                 # this process run
                                 await asyncio.sleep(0)
                             log.append((no, pid, ti, "exit", None))
+                            if ex.get("fail"):
+                                raise TransferFailed()
+                    except TransferFailed:
+                        pass
                     except Exception as e:
                         errors[pid] = (f"exchange: {type(e).__name__}: {e}")
                         return
